@@ -25,6 +25,23 @@
 (*             the split program prints what the whole program printed.    *)
 (* A failed obligation prints a BAD line (the harness turns it into a      *)
 (* VIOLATION) and the validation continues; the SUMMARY line closes it.    *)
+(*                                                                         *)
+(* Coverage obligations of the codec classes (FoamCodec.tla, SefoCodec.tla):*)
+(*   Need  {fields: [{field, bound}], leaves: [kind]}   what TLC exported   *)
+(*         as to be reached: every field kind of the FOAM byte codec a      *)
+(*         source program can drive beyond one byte, and every leaf kind    *)
+(*         of a type expression;                                            *)
+(*   Reach {fields: [{field, max}]}   after the Final event of a FOAM text  *)
+(*         generated directly from a source: the largest value of each      *)
+(*         field kind in that text.  The path that follows through .ao /    *)
+(*         .al is then a witness for these field kinds at that width;       *)
+(*   LinkRun events of library + client programs carry leaves: the leaf     *)
+(*         kinds of the type expressions the library exports.               *)
+(* At the end every needed (field, bound) must have been reached by a unit  *)
+(* whose saved-form paths were performed, and every needed leaf kind by a   *)
+(* split program that was linked and run; a gap prints a GAP line (the      *)
+(* harness treats it as a machinery error: the binding did not cover what   *)
+(* the specification enumerates).                                           *)
 (* Run with -workers 1.                                                    *)
 (***************************************************************************)
 EXTENDS Units, IOUtils
@@ -36,9 +53,12 @@ VARIABLES l,        \* next event
           seen,     \* <<prog, level, kind>> -> [nb, nt, od] of the directly generated artefact
           rawcur,   \* raw digest of the current saved form
           dead,     \* the current path has failed: its remaining events are skipped
-          nbad
+          nbad,
+          need,     \* [fields |-> set of <<field, bound>>, leaves |-> set of kinds] still to be reached
+          wide      \* <<field, max>> pairs of the program whose paths are being performed
 
-tvars == <<vars, l, prog, seen, rawcur, dead, nbad>>
+tvars == <<vars, l, prog, seen, rawcur, dead, nbad, need, wide>>
+cov == <<need, wide>>
 
 Ev == Trc[l]
 IsEvent(n) == l <= Len(Trc) /\ Trc[l].ev = n
@@ -49,6 +69,7 @@ Bad(why) == /\ PrintT("BAD " \o ToJson([l |-> l, why |-> why]))
 Good == nbad' = nbad
 
 TraceInit == /\ l = 1 /\ prog = "" /\ seen = <<>> /\ rawcur = <<>> /\ dead = FALSE /\ nbad = 0
+             /\ need = [fields |-> {}, leaves |-> {}] /\ wide = {}
              /\ level \in Levels /\ level = CHOOSE q \in Levels : TRUE
              /\ chain = <<>> /\ cur = Source(level) /\ steps = <<>> /\ obs = None /\ split = None
 
@@ -59,11 +80,12 @@ TrBegin ==
      ELSE /\ level' = level /\ cur' = Source(level) /\ dead' = TRUE /\ Bad("unknown level")
   /\ chain' = <<>> /\ steps' = <<>> /\ obs' = None /\ split' = None
   /\ prog' = Ev.prog /\ rawcur' = <<>> /\ l' = l + 1 /\ UNCHANGED seen
+  /\ wide' = IF Ev.prog = prog THEN wide ELSE {} /\ UNCHANGED need
 
 Skip == /\ l <= Len(Trc) /\ dead /\ Trc[l].ev # "Begin"
-        /\ l' = l + 1 /\ UNCHANGED <<vars, prog, seen, rawcur, dead, nbad>>
+        /\ l' = l + 1 /\ UNCHANGED <<vars, prog, seen, rawcur, dead, nbad, cov>>
 
-Kill(why) == /\ Bad(why) /\ dead' = TRUE /\ l' = l + 1 /\ UNCHANGED <<vars, prog, seen, rawcur>>
+Kill(why) == /\ Bad(why) /\ dead' = TRUE /\ l' = l + 1 /\ UNCHANGED <<vars, prog, seen, rawcur, cov>>
 
 CanSave(to) == DoPaths /\ obs = None /\ split = None /\ to \in Saved /\ Legal(cur.kind, to) /\ Len(chain) < MaxLen
 
@@ -76,7 +98,7 @@ TrStep ==
           /\ IF StepName(cur.kind, Ev.to) \in {"Resave", "Archive", "Extract"} /\ Ev.raw # rawcur
              THEN Bad("identity: " \o StepName(cur.kind, Ev.to) \o " changed the bytes")
              ELSE Good
-          /\ l' = l + 1 /\ UNCHANGED <<prog, seen, dead>>
+          /\ l' = l + 1 /\ UNCHANGED <<prog, seen, dead, cov>>
 
 CanObserve(to) == /\ DoPaths /\ obs = None /\ split = None /\ to \in Finals /\ Legal(cur.kind, to)
                   /\ ~(cur.kind = "fm" /\ to = "fm")
@@ -102,7 +124,22 @@ TrFinal ==
                      ELSE IF Ev.to \in Runs /\ ~Ev.conf THEN Bad("behaviour: the run does not conform")
                      ELSE IF Ev.to \in Runs /\ ~RunAgrees THEN Bad("behaviour: the run differs from the direct run")
                      ELSE Good
-          /\ l' = l + 1 /\ UNCHANGED <<prog, rawcur, dead>>
+          \* a FOAM text regenerated from a saved form (and agreeing, else a BAD line stands) witnesses the fields reached
+          /\ need' = IF chain # <<>> /\ Ev.to = "fm" /\ Key(Ev.to) \in DOMAIN seen /\ TextAgrees
+                      THEN [need EXCEPT !.fields = {x \in @ : ~\E w \in wide : w[1] = x[1] /\ w[2] >= x[2]}]
+                      ELSE need
+          /\ l' = l + 1 /\ UNCHANGED <<prog, rawcur, dead, wide>>
+
+TrNeed ==
+  /\ IsEvent("Need")
+  /\ need' = [fields |-> need.fields \cup {<<Ev.fields[i].field, Ev.fields[i].bound>> : i \in DOMAIN Ev.fields},
+              leaves |-> need.leaves \cup ToSet(Ev.leaves)]
+  /\ l' = l + 1 /\ UNCHANGED <<vars, prog, seen, rawcur, dead, nbad, wide>>
+
+TrReach ==
+  /\ IsEvent("Reach")
+  /\ wide' = {<<Ev.fields[i].field, Ev.fields[i].max>> : i \in DOMAIN Ev.fields}
+  /\ l' = l + 1 /\ UNCHANGED <<vars, prog, seen, rawcur, dead, nbad, need>>
 
 TrSplit ==
   /\ IsEvent("Split") /\ ~dead
@@ -111,7 +148,7 @@ TrSplit ==
           /\ Ev.qlib \in Levels /\ Ev.form \in {"ao", "al"}) THEN Kill("illegal step")
      ELSE IF ~Ev.ok THEN Kill("step failed")
      ELSE /\ Split(L, Ev.qlib, level, Ev.form) /\ Good
-          /\ l' = l + 1 /\ UNCHANGED <<prog, seen, rawcur, dead>>
+          /\ l' = l + 1 /\ UNCHANGED <<prog, seen, rawcur, dead, cov>>
 
 TrLinkRun ==
   /\ IsEvent("LinkRun") /\ ~dead
@@ -122,14 +159,19 @@ TrLinkRun ==
              ELSE IF Key(Ev.route) \in DOMAIN seen /\ Ev.od # seen[Key(Ev.route)].od
                   THEN Bad("behaviour: the split program differs from the whole program")
              ELSE Good
-          /\ l' = l + 1 /\ UNCHANGED <<prog, seen, rawcur, dead>>
+          \* a library + client program that ran, conforms and agrees with the one-unit program witnesses its leaf kinds
+          /\ need' = IF "leaves" \in DOMAIN Ev /\ Ev.conf /\ Key(Ev.route) \in DOMAIN seen /\ Ev.od = seen[Key(Ev.route)].od
+                      THEN [need EXCEPT !.leaves = @ \ ToSet(Ev.leaves)] ELSE need
+          /\ l' = l + 1 /\ UNCHANGED <<prog, seen, rawcur, dead, wide>>
 
 Finish ==
   /\ l = Len(Trc) + 1
-  /\ PrintT("SUMMARY " \o ToJson([events |-> Len(Trc), bad |-> nbad]))
-  /\ l' = l + 1 /\ UNCHANGED <<vars, prog, seen, rawcur, dead, nbad>>
+  /\ \A x \in need.fields : PrintT("GAP " \o ToJson([field |-> x[1], bound |-> x[2]]))
+  /\ \A x \in need.leaves : PrintT("GAP " \o ToJson([leaf |-> x]))
+  /\ PrintT("SUMMARY " \o ToJson([events |-> Len(Trc), bad |-> nbad, gaps |-> Cardinality(need.fields) + Cardinality(need.leaves)]))
+  /\ l' = l + 1 /\ UNCHANGED <<vars, prog, seen, rawcur, dead, nbad, cov>>
 
-TraceNext == TrBegin \/ Skip \/ TrStep \/ TrFinal \/ TrSplit \/ TrLinkRun \/ Finish
+TraceNext == TrBegin \/ Skip \/ TrStep \/ TrFinal \/ TrSplit \/ TrLinkRun \/ TrNeed \/ TrReach \/ Finish
 TraceSpec == TraceInit /\ [][TraceNext]_tvars
 
 (* evaluated in every state of the trace: the invariants of Units *)
